@@ -184,7 +184,7 @@ def run_model_vm(requests, expected, name, timeout=600):
 
 # ---------------------------------------------------------------- implementation runner
 
-def run_impl(worker, payload, hashseed=0, timeout=600, extra_env=None, cwd=None):
+def run_impl(worker, payload, hashseed=0, timeout=600, extra_env=None, cwd=None, utf8=True):
     """Run harness/workers/<worker>.py in a fresh interpreter against /repo/src. payload and result are JSON."""
     env = dict(os.environ)
     env['PYTHONPATH'] = os.path.join(REPO, 'src') + os.pathsep + os.path.join(VERIF, 'harness')
@@ -193,7 +193,9 @@ def run_impl(worker, payload, hashseed=0, timeout=600, extra_env=None, cwd=None)
     env['DZNPY_REPO'] = REPO
     if extra_env:
         env.update(extra_env)
-    proc = subprocess.run([PY, '-X', 'utf8', os.path.join(VERIF, 'harness', 'workers', worker + '.py')],
+    if not utf8:     # an interpreter whose default text encoding is ASCII (C locale, UTF-8 mode off)
+        env.update({'LC_ALL': 'C', 'LANG': 'C', 'PYTHONUTF8': '0', 'PYTHONCOERCECLOCALE': '0'})
+    proc = subprocess.run([PY] + (['-X', 'utf8'] if utf8 else []) + [os.path.join(VERIF, 'harness', 'workers', worker + '.py')],
                           input=json.dumps(payload).encode(), stdout=subprocess.PIPE,
                           stderr=subprocess.PIPE, timeout=timeout, env=env, cwd=cwd or os.path.join(VERIF, 'harness'))
     if proc.returncode != 0:
@@ -232,7 +234,16 @@ def _strip_comments(text):
 
 def proof_gate(pid):
     """(Re)build the Coq development, re-check Properties/<pid>.v and read its Print Assumptions output.
-    Returns dict(obligations, discharged, theorems, assumptions, problems)."""
+    Returns dict(obligations, discharged, theorems, assumptions, problems).
+    Checks may run side by side: the gate is serialised with a file lock (it writes compiled files in the Coq tree)."""
+    import fcntl
+    os.makedirs(os.path.join(VERIF, '_build'), exist_ok=True)
+    with open(os.path.join(VERIF, '_build', 'proofgate.lock'), 'w') as lock:
+        fcntl.flock(lock, fcntl.LOCK_EX)
+        return _proof_gate(pid)
+
+
+def _proof_gate(pid):
     res = {'obligations': 0, 'discharged': 0, 'theorems': [], 'assumptions': {}, 'problems': []}
     mk = subprocess.run(['bash', '-c', 'cd %s && ([ -f Makefile ] || coq_makefile -f _CoqProject -o Makefile >/dev/null) '
                          '&& timeout 3000 make -j16 2>&1 | tail -30' % COQ],
@@ -360,8 +371,11 @@ class Report:
         ev = {'property_id': self.pid, 'tier': self.tier, 'seed': self.seed, 'level': level,
               'coverage': cov, 'assumptions': assumptions,
               'wall_s': round(time.time() - self.t0, 2), 'violations': len(self.violations)}
-        os.makedirs(os.path.join(VERIF, 'evidence'), exist_ok=True)
-        with open(os.path.join(VERIF, 'evidence', self.pid + '.json'), 'w') as f:
+        # evidence describes runs against /repo; a run pointed at another tree (DZNPY_REPO, used to evaluate seeded changes)
+        # leaves its record under _build instead
+        evdir = os.path.join(VERIF, 'evidence') if os.path.realpath(REPO) == '/repo' else os.path.join(VERIF, '_build', 'evidence_other_tree')
+        os.makedirs(evdir, exist_ok=True)
+        with open(os.path.join(evdir, self.pid + '.json'), 'w') as f:
             json.dump(ev, f, indent=1, default=str)
         print(f'{self.pid} {self.tier}: theorems {gate["discharged"]}/{gate["obligations"]}, '
               f'{self.evaluations} cases ({len(self.distinct)} distinct non-trivial), '
